@@ -259,6 +259,19 @@ def G3(ctx: Ctx) -> RuleResult:
                                 other = [a for a in t.args if a != op][0]
                                 if isinstance(other, _Attr) and other.name == 'token' and isinstance(val, _Attr) and val.name == 'value' and val.base == other.base:
                                     found = True
+        if not found:
+            # next((member.value for member in Enum.__members__.values() if member.token == op), None) ... raise ValueError
+            from .terms import Call as _Call, Comp as _Comp, Ext as _Ext
+            for o in outs:
+                for t in [g for g, _ in o.guards] + ([o.value] if o.value is not None else []):
+                    for x in _walk(t):
+                        if isinstance(x, _Call) and isinstance(x.func, _Ext) and x.func.name == 'next' and x.args and isinstance(x.args[0], _Comp) and len(x.args[0].gens) == 1:
+                            comp = x.args[0]
+                            tgt, it, ifs = comp.gens[0]
+                            each = _Sym(f'each:{tgt}')
+                            if enum in repr(it) and '__members__' in repr(it) and comp.elt == _Attr(each, 'value') and len(ifs) == 1 \
+                                    and isinstance(ifs[0], _Op) and ifs[0].op == '==' and set(ifs[0].args) == {_Attr(each, 'token'), op}:
+                                found = True
         if found and raises:
             r.ok(f'{fn}: member whose token equals the lexeme -> its definition; ValueError otherwise')
         else:
